@@ -144,7 +144,7 @@ PLAN = {
                        thorough=('fub_c3', 'ja4', 'tja4', 'fu_panic', 'fob_panic', 'fo_panic', 'mb_panic', 'mu_panic', 'bu_panic', 'tbu_panic', 'tbo_panic', 'fe_panic')),
             'gen': gens('fub', 'fob', 'mb', 'bo', 'ja', 'tja', 'fub_panic', 'fu_panic', 'fe_panic', 'tja_panic'),
             'random': suite(ALL_KINDS, 200, 2000, 10, 100) + [rnd(k, 'small', 'panic', 60, 600) for k in ALL_KINDS] + [rnd(k, 'small', 'dpanic', 60, 600) for k in ALL_KINDS]
-                      + [rnd(k, 'real', 'burst', 12, 120) for k in ('ja', 'tja', 'mb', 'mu')]},
+                      + [rnd(k, 'real', 'burst', 40, 400) for k in ('ja', 'tja')] + [rnd(k, 'real', 'burst', 12, 120) for k in ('mb', 'mu')]},
     'C07': {'mc': mcs('ja', 'tja', 'ja_panic', 'tja_panic', thorough=('ja4', 'tja4', 'ja5')),
             'gen': gens('ja', 'tja', 'ja_panic', 'tja_panic'),
             'random': suite(JOIN_KINDS, 600, 6000, 60, 600) + [rnd(k, 'small', 'panic', 200, 2000) for k in JOIN_KINDS] + [rnd(k, 'small', 'dpanic', 200, 2000) for k in JOIN_KINDS]
@@ -155,7 +155,8 @@ PLAN = {
                       + suite(ADAPT_KINDS + JOIN_KINDS, 100, 1000, 10, 100)},
     'C09': {'mc': mcs('bu', 'bo', 'tbu', 'tbo', 'fe', thorough=('bu4', 'bo4', 'tbu4', 'tbo4', 'fe4', 'bu5c3')),
             'gen': gens('bu', 'bo', 'tbu', 'tbo', 'fe'),
-            'random': suite(ADAPT_KINDS, 400, 4000, 40, 400) + [rnd(k, 'real', 'bigcap', 1, 4) for k in ADAPT_KINDS]},
+            'random': suite(ADAPT_KINDS, 400, 4000, 40, 400) + [rnd(k, 'real', 'bigcap', 1, 4) for k in ADAPT_KINDS]
+                      + [rnd(k, 'real', 'adbudget', 6, 60) for k in ADAPT_KINDS]},
     'C10': {'mc': mcs('bu', 'bo', 'tbu', 'tbo', 'fe', thorough=('bu4', 'bo4', 'tbu4', 'tbo4', 'fe4', 'bu5c3')),
             'gen': gens('bu', 'bo', 'tbu', 'tbo', 'fe'),
             'random': suite(ADAPT_KINDS, 400, 4000, 40, 400) + [rnd('fe', 'small', 'limit0', 6, 30)]},
